@@ -333,4 +333,135 @@ theorem border_isBoundary_hexWL (W L nx ny nz n x y z : Nat) (hW : W = nx + 1)
   rw [List.getD_eq_getElem?_getD, List.getElem?_eq_getElem (by rw [hlen]; exact hc.2)]
   exact List.getElem_mem _
 
+/-! ### the structured assembly `structHexes nx ny nz` -/
+
+theorem structHexes_hL (nx ny : Nat) : ∀ j, j < ny → j * (nx + 1) + 2 * (nx + 1) ≤ (ny + 1) * (nx + 1) := by
+  intro j hj
+  have := Nat.mul_le_mul_right (nx + 1) (show j + 2 ≤ ny + 1 by omega)
+  rw [Nat.add_mul] at this; exact this
+
+theorem row_lt_layer (nx ny x y : Nat) (hx : x ≤ nx) (hy : y ≤ ny) : y * (nx + 1) + x < (ny + 1) * (nx + 1) := by
+  have := Nat.mul_le_mul_right (nx + 1) (show y + 1 ≤ ny + 1 by omega)
+  rw [Nat.add_mul, Nat.one_mul] at this; omega
+
+theorem hexCoord_eq (nx ny x y z : Nat) (hx : x ≤ nx) (hy : y ≤ ny) :
+    hexCoord nx ny (z * ((ny + 1) * (nx + 1)) + y * (nx + 1) + x) = ⟨(x : Nat), (y : Nat), (z : Nat)⟩ := by
+  have hr := row_lt_layer nx ny x y hx hy
+  have hLpos : 0 < (ny + 1) * (nx + 1) := Nat.mul_pos (by omega) (by omega)
+  have e1 : (z * ((ny + 1) * (nx + 1)) + y * (nx + 1) + x) % ((ny + 1) * (nx + 1)) = y * (nx + 1) + x := by
+    rw [Nat.add_assoc, Nat.add_comm, Nat.add_mul_mod_self_right, Nat.mod_eq_of_lt hr]
+  have e2 : (z * ((ny + 1) * (nx + 1)) + y * (nx + 1) + x) / ((ny + 1) * (nx + 1)) = z := by
+    rw [Nat.add_assoc, Nat.add_comm, Nat.add_mul_div_right _ _ hLpos, Nat.div_eq_of_lt hr]; omega
+  have e3 : (y * (nx + 1) + x) % (nx + 1) = x := by
+    rw [Nat.add_comm, Nat.add_mul_mod_self_right]; exact Nat.mod_eq_of_lt (by omega)
+  have e4 : (y * (nx + 1) + x) / (nx + 1) = y := by
+    rw [Nat.add_comm, Nat.add_mul_div_right _ _ (by omega), Nat.div_eq_of_lt (by omega)]; omega
+  unfold hexCoord
+  rw [e1, e2, e3, e4]
+
+theorem border_isBoundary_hex (nx ny nz x y z : Nat) (h1 : 1 ≤ nx) (h2 : 1 ≤ ny) (h3 : 1 ≤ nz)
+    (hx : x ≤ nx) (hy : y ≤ ny) (hz : z ≤ nz) (hb : x = 0 ∨ x = nx ∨ y = 0 ∨ y = ny ∨ z = 0 ∨ z = nz) :
+    isBoundary (structHexes nx ny nz) (z * ((ny + 1) * (nx + 1)) + y * (nx + 1) + x) = true :=
+  border_isBoundary_hexWL _ _ nx ny nz _ x y z rfl (structHexes_hL nx ny) h1 h2 h3 hx hy hz hb
+
+/-- an inner junction of the assembly is a lattice-interior vertex -/
+theorem inner_interior_hex (nx ny nz q : Nat) (h1 : 1 ≤ nx) (h2 : 1 ≤ ny) (h3 : 1 ≤ nz)
+    (hq : q ∈ inner (structHexes nx ny nz)) :
+    ∃ x y z, q = (z + 1) * ((ny + 1) * (nx + 1)) + (y + 1) * (nx + 1) + (x + 1) ∧
+      x + 2 ≤ nx ∧ y + 2 ≤ ny ∧ z + 2 ≤ nz := by
+  obtain ⟨hlt, hb⟩ := (mem_inner _ q).mp hq
+  have hn : (structHexes nx ny nz).n = (nz + 1) * ((ny + 1) * (nx + 1)) := rfl
+  rw [hn] at hlt
+  have hLpos : 0 < (ny + 1) * (nx + 1) := Nat.mul_pos (by omega) (by omega)
+  have hZ : q / ((ny + 1) * (nx + 1)) < nz + 1 := Nat.div_lt_of_lt_mul (Nat.lt_of_lt_of_eq hlt (Nat.mul_comm _ _))
+  have hR : q % ((ny + 1) * (nx + 1)) < (ny + 1) * (nx + 1) := Nat.mod_lt _ hLpos
+  have hY : q % ((ny + 1) * (nx + 1)) / (nx + 1) < ny + 1 :=
+    Nat.div_lt_of_lt_mul (Nat.lt_of_lt_of_eq hR (Nat.mul_comm _ _))
+  have hX : q % ((ny + 1) * (nx + 1)) % (nx + 1) < nx + 1 := Nat.mod_lt _ (by omega)
+  have d1 : q / ((ny + 1) * (nx + 1)) * ((ny + 1) * (nx + 1)) + q % ((ny + 1) * (nx + 1)) = q := by
+    rw [Nat.mul_comm]; exact Nat.div_add_mod q _
+  have d2 : q % ((ny + 1) * (nx + 1)) / (nx + 1) * (nx + 1) + q % ((ny + 1) * (nx + 1)) % (nx + 1)
+      = q % ((ny + 1) * (nx + 1)) := by
+    rw [Nat.mul_comm]; exact Nat.div_add_mod _ _
+  generalize q / ((ny + 1) * (nx + 1)) = Z at hZ d1
+  generalize hRR : q % ((ny + 1) * (nx + 1)) = R at hR hY hX d1 d2
+  generalize R / (nx + 1) = Y at hY d2
+  generalize R % (nx + 1) = X at hX d2
+  have hq' : q = Z * ((ny + 1) * (nx + 1)) + Y * (nx + 1) + X := by rw [← d1, ← d2, Nat.add_assoc]
+  have hnb : ¬ (X = 0 ∨ X = nx ∨ Y = 0 ∨ Y = ny ∨ Z = 0 ∨ Z = nz) := by
+    intro hbd
+    have := border_isBoundary_hex nx ny nz X Y Z h1 h2 h3 (by omega) (by omega) (by omega) hbd
+    rw [← hq', hb] at this; exact Bool.noConfusion this
+  refine ⟨X - 1, Y - 1, Z - 1, ?_, by omega, by omega, by omega⟩
+  have e1 : Z - 1 + 1 = Z := by omega
+  have e2 : Y - 1 + 1 = Y := by omega
+  have e3 : X - 1 + 1 = X := by omega
+  rw [e1, e2, e3, hq']
+
+theorem interior_nbrs_hex (nx ny nz x y z : Nat) (h2 : 1 ≤ ny) (hx : x + 2 ≤ nx) (hy : y + 2 ≤ ny) (hz : z + 2 ≤ nz) :
+    junctionNbrs (structHexes nx ny nz) ((z + 1) * ((ny + 1) * (nx + 1)) + (y + 1) * (nx + 1) + (x + 1)) =
+      [z * ((ny + 1) * (nx + 1)) + (y + 1) * (nx + 1) + (x + 1),
+       (z + 1) * ((ny + 1) * (nx + 1)) + y * (nx + 1) + (x + 1),
+       (z + 1) * ((ny + 1) * (nx + 1)) + (y + 1) * (nx + 1) + x,
+       (z + 1) * ((ny + 1) * (nx + 1)) + (y + 1) * (nx + 1) + (x + 2),
+       (z + 1) * ((ny + 1) * (nx + 1)) + (y + 2) * (nx + 1) + (x + 1),
+       (z + 2) * ((ny + 1) * (nx + 1)) + (y + 1) * (nx + 1) + (x + 1)] := by
+  apply interior_nbrs_hexWL _ _ nx ny nz _ x y z (by omega) _ hx hy hz
+  · -- the point above is inside the grid
+    have hr := row_lt_layer nx ny (x + 1) (y + 1) (by omega) (by omega)
+    have := Nat.mul_le_mul_right ((ny + 1) * (nx + 1)) (show z + 2 + 1 ≤ nz + 1 by omega)
+    rw [Nat.add_mul (z + 2) 1, Nat.one_mul] at this
+    omega
+  · have := Nat.mul_le_mul_right (nx + 1) (show 2 ≤ ny + 1 by omega)
+    omega
+
+/-- **the lattice hypothesis for hexahedral assemblies of every size** -/
+theorem structHexes_latticeLike (nx ny nz : Nat) (h1 : 1 ≤ nx) (h2 : 1 ≤ ny) (h3 : 1 ≤ nz) (fixed : List Nat) :
+    LatticeLike (structHexes nx ny nz) fixed (hexCoord nx ny) := by
+  intro q hq _
+  obtain ⟨x, y, z, rfl, hx, hy, hz⟩ := inner_interior_hex nx ny nz q h1 h2 h3 hq
+  rw [interior_nbrs_hex nx ny nz x y z h2 hx hy hz]
+  refine ⟨by simp, ?_⟩
+  simp only [List.map_cons, List.map_nil, List.length_cons, List.length_nil]
+  rw [hexCoord_eq nx ny (x + 1) (y + 1) z (by omega) (by omega), hexCoord_eq nx ny (x + 1) y (z + 1) (by omega) (by omega),
+    hexCoord_eq nx ny x (y + 1) (z + 1) (by omega) (by omega), hexCoord_eq nx ny (x + 2) (y + 1) (z + 1) (by omega) (by omega),
+    hexCoord_eq nx ny (x + 1) (y + 2) (z + 1) (by omega) (by omega), hexCoord_eq nx ny (x + 1) (y + 1) (z + 2) (by omega) (by omega),
+    hexCoord_eq nx ny (x + 1) (y + 1) (z + 1) (by omega) (by omega)]
+  apply V3.ext' <;> simp [vsum, V3.zero] <;> ring
+
+/-- every junction of the assembly reaches a non-free junction along neighbour links (walk along x) -/
+theorem structHexes_reach (nx ny nz : Nat) (h1 : 1 ≤ nx) (h2 : 1 ≤ ny) (h3 : 1 ≤ nz) (fixed : List Nat) (q : Nat) :
+    Reach (junctionNbrs (structHexes nx ny nz)) (fun j => j ∈ inner (structHexes nx ny nz) ∧ j ∉ fixed) q := by
+  suffices H : ∀ c q, (hexCoord nx ny q).x = (c : Nat) →
+      Reach (junctionNbrs (structHexes nx ny nz)) (fun j => j ∈ inner (structHexes nx ny nz) ∧ j ∉ fixed) q by
+    have hc : ∃ c : Nat, (hexCoord nx ny q).x = (c : Nat) := ⟨_, rfl⟩
+    obtain ⟨c, hc⟩ := hc
+    exact H c q hc
+  intro c
+  induction c with
+  | zero =>
+    intro q hc
+    apply Reach.base
+    rintro ⟨hq, _⟩
+    obtain ⟨x, y, z, rfl, _, _, _⟩ := inner_interior_hex nx ny nz q h1 h2 h3 hq
+    rw [hexCoord_eq nx ny (x + 1) (y + 1) (z + 1) (by omega) (by omega)] at hc
+    simp only at hc
+    have : ((x + 1 : Nat) : Rat) = ((0 : Nat) : Rat) := hc
+    have := Nat.cast_injective this
+    omega
+  | succ c ih =>
+    intro q hc
+    by_cases hf : q ∈ inner (structHexes nx ny nz) ∧ q ∉ fixed
+    · obtain ⟨x, y, z, rfl, hx, hy, hz⟩ := inner_interior_hex nx ny nz q h1 h2 h3 hf.1
+      rw [hexCoord_eq nx ny (x + 1) (y + 1) (z + 1) (by omega) (by omega)] at hc
+      have hc' : ((x + 1 : Nat) : Rat) = ((c + 1 : Nat) : Rat) := hc
+      have hxc := Nat.cast_injective hc'
+      apply Reach.step _ ((z + 1) * ((ny + 1) * (nx + 1)) + (y + 1) * (nx + 1) + x)
+      · rw [interior_nbrs_hex nx ny nz x y z h2 hx hy hz]; simp
+      · apply ih
+        rw [hexCoord_eq nx ny x (y + 1) (z + 1) (by omega) (by omega)]
+        show ((x : Nat) : Rat) = ((c : Nat) : Rat)
+        congr 1; omega
+    · exact Reach.base _ hf
+
 end CBV.C15
